@@ -172,19 +172,45 @@ def run(rep):
                             rows_ids.add(s["pat"]["id"])
         rep.check(len(key_ids) >= 5, "PROV-SYNTH", "PROV-SYNTH/key-sites", mf.sp, "five synthetic-key definition sites (char::from_u32)", str(len(key_ids)))
         nuse = 0
+        derived = set()  # immutable bindings of `key.to_string()` (a closure or helper parameter after inlining): the key's text
+        for _round in range(3):
+            more = set()
+            for n, path in walk_with_path(mf.body):
+                if n.get("k") == "Var" and n["id"] in (key_ids | derived) and n["id"] not in more:
+                    chain = [p for p in path if p.get("k") in ("Call", "Adt")]
+                    if n["id"] in key_ids and not (chain and call_is(chain[-1], "to_string")):
+                        continue
+                    tail = chain[:-1] if n["id"] in key_ids else chain
+                    if any(p.get("k") == "Adt" and p["adt"].endswith("parser::Expression") for p in tail):
+                        continue
+                    for p in reversed(path):
+                        if p.get("k") == "Block":
+                            for st in p["stmts"]:
+                                if st["k"] == "Let" and st["pat"].get("k") == "Bind" and st["pat"].get("mode", "").endswith("Not)") and st.get("init") is not None and any(x is n for x in walk(st["init"])) \
+                                        and (q.var_id(st["init"]) == n["id"] or (call_is(peel(st["init"]), "to_string") and q.var_id(peel(st["init"])["args"][0]) == n["id"])):
+                                    more.add(st["pat"]["id"])
+                            break
+            if more <= derived:
+                break
+            derived |= more
         for n, path in walk_with_path(mf.body):
-            if n.get("k") == "Var" and n["id"] in key_ids:
+            if n.get("k") == "Var" and n["id"] in (key_ids | derived):
                 nuse += 1
                 # must be receiver of to_string whose parent chain is: Adt Expression::{Cast,Field,Nested,Search} field -> ... -> Some -> push(row, ..)
                 chain = [p for p in path if p.get("k") in ("Call", "Adt")]
                 ok = False
                 det = " <- ".join((p.get("fn") or (p["adt"] + "::" + p["variant"])).split("::")[-1] for p in reversed(chain[-6:]))
-                if chain and call_is(chain[-1], "to_string"):
-                    ups = chain[:-1]
+                is_text = n["id"] in derived
+                if is_text or (chain and call_is(chain[-1], "to_string")):
+                    ups = chain if is_text else chain[:-1]
                     ctor = [p for p in ups if p.get("k") == "Adt" and p["adt"].endswith("parser::Expression")]
                     push = [p for p in ups if call_is(p, "::push") and q.var_id(p["args"][0]) in row_ids]
                     inner = ctor[-1] if ctor else None
                     ok = bool(push) and inner is not None and inner["variant"] in ("Cast", "Field", "Nested", "Search")
+                    if not ok and not ctor:
+                        # the text is first bound to a name (see `derived`): that name's uses are checked in its place
+                        ok = any(st["k"] == "Let" and st["pat"].get("k") == "Bind" and st["pat"]["id"] in derived and st.get("init") is not None and any(x is n for x in walk(st["init"]))
+                                 for p in path if p.get("k") == "Block" for st in p["stmts"])
                 rep.check(ok, "PROV-SYNTH", "PROV-SYNTH/key-use#%d" % nuse, n["sp"], "synthetic key is only written into a cell pushed to `row`", det)
         for n, path in walk_with_path(mf.body):
             if n.get("k") == "Var" and (n["id"] in row_ids or n["id"] in rows_ids):
@@ -220,6 +246,9 @@ def run(rep):
     core.import_rules(rep, "c01", {"PASS-ARMS"})
     # the reading primitive itself: a lookup that falls back to the root or to a shorter path reads a field the rule did not name there
     core.import_rules(rep, "c10", {"T-FIND", "STEP-TOTAL", "INDEX", "NO-OVERRIDE"})
+    # the key a predicate asks the document for is the key as written in the rule (modifier stripped, words joined back): a key built any
+    # other way is a key the rule does not name
+    core.import_rules(rep, "c02", {"K-MOD"})
     rep.floor("PROV-DOC", 24)
     rep.floor("PROV-MATRIX", 4)
     rep.floor("PROV-CACHE", 6)
